@@ -14,6 +14,16 @@ Assumed contracts (trusted base; every use is recorded under its `dep:` name in 
   * dataclasses.replace(obj, **kw): `type(obj)(**{f: getattr(obj, f) for every init field f, overridden by kw})`;
     TypeError for a name that is not a field.  obj is not modified.
   * dataclasses.dataclass(frozen=True): instances cannot be assigned to after __init__ (FrozenInstanceError).
+  * dataclasses.dataclass(eq=True) (the default): unless the class body defines __eq__ itself, `a == b` for two
+    instances of the same class is the comparison of the tuples of the fields declared with compare=True (the default
+    of field()); instances of different classes are unequal.  With eq=False equality is identity.  With eq=True and
+    frozen=True, __hash__ is generated from the fields with hash=True (hash=None means: follow compare), unless
+    the class body defines __hash__.
+  * jax.jit / equinox.filter_jit cache compiled traces under a key made of the treedefs of the arguments; static
+    fields of an equinox Module are treedef metadata and are compared with == (and hashed) for that key.  Two
+    operators whose static fields compare equal therefore SHARE one trace — everything the first trace read from a
+    static field (solver, throw, options, callback of InverseOperator.config) is reused for the second.  Hence C19's
+    capture clause needs: configurations that differ in any setting never compare equal.
   * dataclasses.fields(obj): the declared fields in order (only .name is used).
   * dataclasses.asdict(obj): dict field-name -> value where values that are themselves dataclass instances are
     converted to dicts recursively, lists/tuples/dicts are rebuilt recursively, everything else is deep-copied
@@ -142,12 +152,45 @@ def is_frozen(ci):
     return False
 
 
+def dataclass_options(ci):
+    """keyword constants of the @dataclass(...) decorator found along the MRO (nearest first), e.g. {'frozen': True}"""
+    import ast
+    for c in ci.mro:
+        for d in c.decorators:
+            if ast.unparse(d).split('(')[0].split('.')[-1] == 'dataclass':
+                if isinstance(d, ast.Call):
+                    return {k.arg: (k.value.value if isinstance(k.value, ast.Constant) else k.value) for k in d.keywords}
+                return {}
+    return None
+
+
+def compared_fields(ci):
+    return [f for f in ci.all_fields() if f.options.get('compare', True) is not False]
+
+
+def dataclass_eq(interp, a, b):
+    """equals-handler: the generated __eq__ of dataclass instances (assumed contract above)"""
+    from pyvc.values import z_and
+    if not (isinstance(a, Obj) and isinstance(b, Obj)):
+        return None
+    opts = dataclass_options(a.cls)
+    if opts is None or a.cls.lookup('__eq__') is not None:
+        return None
+    if opts.get('eq', True) is False:
+        return a is b
+    if a.cls is not b.cls:
+        return False
+    return z_and(*[z_eq(a.fields.get(f.name), b.fields.get(f.name)) for f in compared_fields(a.cls)])
+
+
 def trace(interp):
     return interp.run.ghost.setdefault('trace', [])
 
 
 def install(T: Theory, dataclass_pred=None):
     """dataclass_pred(value) -> bool | None: is an opaque value a dataclass instance (used by asdict)"""
+
+    T.equals_handlers.append(dataclass_eq)
 
     @T.ext('contextvars.ContextVar')
     def _ctxvar(interp, name, **kw):
